@@ -197,3 +197,63 @@ Theorem C18_hist_check_reads : forall steps pool, ghist_check pool steps = true 
     query_ok (fold_left gapply (map (fun s : gstep => fst (fst s)) pre) pool) q o = true.
 Proof. exact ghist_check_reads. Qed.
 Print Assumptions C18_hist_check_reads.
+
+(* ---------------------------------------------------------------------------------------
+   Coincidences between derived quantities of two rectangles (Geometry/RectCoincide.v): the second
+   rectangle of a pair is built from the first so that they share a point (centre or a corner) and
+   a derived quantity (shape, area, transposed shape, width, height, perimeter, aspect ratio).
+   --------------------------------------------------------------------------------------- *)
+From FrameModel Require Import Geometry.RectCoincide.
+
+Theorem C18_coincide_anchored : forall a rel r t, anchored a r (coincide a rel r t).
+Proof. exact coincide_anchored. Qed.
+Print Assumptions C18_coincide_anchored.
+
+Theorem C18_coincide_shape : forall a rel r t,
+  (rw (coincide a rel r t), rh (coincide a rel r t)) = rel_shape rel (rw r) (rh r) /\
+  (let w' := fst (rel_shape rel (rw r) (rh r)) in
+   let h' := snd (rel_shape rel (rw r) (rh r)) in
+   match rel with
+   | SSame => w' = rw r /\ h' = rh r
+   | SEqArea k => k <> 0 -> w' * h' = rw r * rh r
+   | STransposed => w' = rh r /\ h' = rw r
+   | SSameW _ => w' = rw r
+   | SSameH _ => h' = rh r
+   | SEqPerim _ => w' + h' = rw r + rh r
+   | SEqAspect _ => w' * rh r = rw r * h'
+   end).
+Proof. exact (fun a rel r t => conj (coincide_shape a rel r t) (rel_shape_spec rel (rw r) (rh r))). Qed.
+Print Assumptions C18_coincide_shape.
+
+(* two rectangles sharing the centre or a corner overlap in min(w) * min(h) *)
+Theorem C18_anchored_overlap : forall a r s, wf r -> wf s -> anchored a r s ->
+  area_overlap r s = Qcmin (rw r) (rw s) * Qcmin (rh r) (rh s).
+Proof. exact anchored_overlap. Qed.
+Print Assumptions C18_anchored_overlap.
+
+(* the overlap is the whole area of a rectangle exactly when it lies inside the other *)
+Theorem C18_full_overlap_iff_inside : forall r s, wf r ->
+  (area_overlap r s = area r <-> is_inside r s = true).
+Proof. exact full_overlap_iff_inside. Qed.
+Print Assumptions C18_full_overlap_iff_inside.
+
+(* two rectangles of equal area overlapping in that whole area are the same box *)
+Theorem C18_eq_area_full_overlap_same_box : forall r s, wf r -> wf s -> area r = area s ->
+  area_overlap r s = area r -> cx r = cx s /\ cy r = cy s /\ rw r = rw s /\ rh r = rh s.
+Proof. exact eq_area_full_overlap_same_box. Qed.
+Print Assumptions C18_eq_area_full_overlap_same_box.
+
+(* same point, same area, another shape: strictly less than the area *)
+Theorem C18_anchored_eq_area_other_shape : forall a r s, wf r -> wf s -> anchored a r s ->
+  area r = area s -> rw r <> rw s -> area_overlap r s < area r.
+Proof. exact anchored_eq_area_other_shape. Qed.
+Print Assumptions C18_anchored_eq_area_other_shape.
+
+(* the hypotheses are satisfiable: a 2x2 square centred on a 4x1 rectangle *)
+Theorem C18_coincide_example :
+  let r := mkRect (qc 6 1) (qc 15 2) (qc 4 1) (qc 1 1) false false "_" NOPOLY in
+  let s := coincide ACentre (SEqArea half) r r in
+  geom_eqb s (mkRect (qc 6 1) (qc 15 2) (qc 2 1) (qc 2 1) false false "_" NOPOLY) = true /\
+  area r = area s /\ area_overlap r s = qc 2 1.
+Proof. exact coincide_example. Qed.
+Print Assumptions C18_coincide_example.
